@@ -1,0 +1,32 @@
+//go:build verif
+// +build verif
+
+package server
+
+// Exports for the verification harness (/verif). Add-only; compiled only with -tags verif.
+
+import "net/http"
+
+// VerifRange runs getRange and, when a range was recognised, setRangedHeaders and the
+// requestRange arithmetic for the given content length.
+func VerifRange(rangeHeader string, contentLength int64, status int) (recognised bool, hasStart bool, start int64, hasEnd bool, end int64,
+	outStatus int, outHeader http.Header, seekStart int64, readSize int64) {
+	h := http.Header{}
+	if rangeHeader != "" {
+		h.Set("range", rangeHeader)
+	}
+	rr := getRange(h)
+	out := &http.Header{}
+	if rr == nil {
+		s, oh := setRangedHeaders(nil, contentLength, status, out)
+		return false, false, 0, false, 0, s, *oh, 0, contentLength
+	}
+	if rr.s != nil {
+		hasStart, start = true, *rr.s
+	}
+	if rr.e != nil {
+		hasEnd, end = true, *rr.e
+	}
+	s, oh := setRangedHeaders(rr, contentLength, status, out)
+	return true, hasStart, start, hasEnd, end, s, *oh, rr.start(contentLength), rr.size(contentLength)
+}
